@@ -3,7 +3,7 @@
    Abstraction (DESIGN Appendix E3): pending s = buffered bytes ++ data still on the tape.
    Every operation's result and new [pending] are functions of the old [pending] alone,
    unless it ends in a deadline-expiry error. *)
-From MQ Require Import Bytes Spec Reader.
+From MQ Require Import Bytes Spec Reader ReaderRun.
 From Coq Require Import ZArith ZifyN ZifyNat ZifyBool.
 Ltac Zify.zify_post_hook ::= Z.div_mod_to_equations.
 
@@ -351,9 +351,6 @@ Qed.
 
 (* ------------------------------------------------------------------ *)
 (* the payload slice: Peek with retry on progress-making expiries       *)
-
-Definition is_big (cap head size : N) : bool := (head / 16 =? 3) && (cap <? size).
-Definition peek_len (cap head size : N) : N := if is_big cap head size then cap else size.
 
 Lemma slice_loop_spec fuel : forall pause s head size lastN,
   wf s -> peek_len (rcap s) head size <= rcap s -> peek_len (rcap s) head size <= len (pending s) ->
@@ -799,4 +796,331 @@ Proof.
   - rewrite E. left. destruct pause; eexists; reflexivity.
   - rewrite E. cbn [app fst snd]. right.
     destruct pause; eexists; (split; [reflexivity|]); [apply post_arm_r|]; exact Po.
+Qed.
+
+(* ------------------------------------------------------------------ *)
+(* the big-message path and alignment                                  *)
+
+Lemma firstn_app_exact {A} (a b : list A) : firstn (length a) (a ++ b) = a.
+Proof. rewrite firstn_app_le, firstn_all by lia. reflexivity. Qed.
+
+Lemma skipn_app_exact {A} (a b : list A) : skipn (length a) (a ++ b) = b.
+Proof. rewrite skipn_app_le, skipn_all by lia. reflexivity. Qed.
+
+Lemma pub_split_bound head p t id i : pub_split head p = Some (t, id, i) -> i <= len p.
+Proof.
+  unfold pub_split. destruct p as [|a [|b r]]; try discriminate.
+  destruct (N.ltb_spec (len r) (a * 256 + b)) as [L|L]; [discriminate|].
+  destruct ((head / 2) mod 4 =? 0).
+  - intros E. assert (Hi : i = 2 + (a * 256 + b)) by congruence. subst i.
+    unfold len in *. cbn [length]. lia.
+  - destruct (skipn (N.to_nat (a * 256 + b)) r) as [|c [|d r']] eqn:S1; try discriminate.
+    intros E. assert (Hi : i = 4 + (a * 256 + b)) by congruence. subst i.
+    apply (f_equal (@length N)) in S1. rewrite skipn_length in S1.
+    unfold len in *. cbn [length] in *. lia.
+Qed.
+
+(* state right after peekPacket returned a BigMessage for (head, body) *)
+Definition big_ready (s1 : rst) (body rest : list N) : Prop :=
+  wf s1 /\ pending s1 = body ++ rest /\ rcap s1 < len body /\
+  firstn (N.to_nat (rcap s1)) (rbuf s1) = firstn (N.to_nat (rcap s1)) body /\
+  rcap s1 <= len (rbuf s1).
+
+Lemma big_ready_len s1 body rest : big_ready s1 body rest ->
+  len (firstn (N.to_nat (rcap s1)) body) = rcap s1.
+Proof. intros (_ & _ & L & _). rewrite len_firstn. lia. Qed.
+
+(* serve: skip the bytes before the message, then ReadAll returns exactly the rest of
+   the body and the reader is positioned on the next packet *)
+Theorem big_read_spec pause s1 body rest i :
+  big_ready s1 body rest -> i <= rcap s1 ->
+  let before := rcap s1 - (len (firstn (N.to_nat (rcap s1)) body) - i) in
+  let s2 := snd (bufio_discard 1 s1 before 0) in
+  (exists s3, read_all pause s2 (len body - before) = (inr ETimeout, s3))
+  \/ (exists s3, read_all pause s2 (len body - before) = (inl (skipn (N.to_nat i) body), s3)
+        /\ post s1 s3 rest).
+Proof.
+  intros R Hi. pose proof (big_ready_len _ _ _ R) as Hl. rewrite Hl.
+  destruct R as (W1 & P1 & Lb & Hf & Hb).
+  replace (rcap s1 - (rcap s1 - i)) with i by lia. cbv zeta.
+  destruct (bufio_discard_buffered 0 s1 i 0 W1 ltac:(lia)) as (s2 & E & Po & _).
+  rewrite E. cbn [snd]. destruct Po as (W2 & C2 & P2 & Wt2).
+  assert (Hi' : (N.to_nat i <= length body)%nat) by (unfold len in Lb; lia).
+  rewrite P1, skipn_app_le in P2 by exact Hi'.
+  destruct (read_all_spec pause s2 (len body - i) W2) as [L|(s3 & E3 & Po3)].
+  - rewrite P2, len_app', len_skipn. lia.
+  - left. exact L.
+  - right. exists s3. rewrite P2 in *.
+    assert (Hn : N.to_nat (len body - i) = length (skipn (N.to_nat i) body)).
+    { rewrite skipn_length. unfold len. lia. }
+    rewrite Hn, firstn_app_exact in E3. rewrite Hn, skipn_app_exact in Po3.
+    split; [exact E3|]. eapply post_trans; [|exact Po3].
+    apply post_intro; try apply W2; try apply W1; auto; try lia.
+    pose proof (wf_cap _ W2). lia.
+Qed.
+
+(* a BigMessage that is not read: the next ReadSlices discards the remainder *)
+Theorem big_skip_spec pause s1 body rest i :
+  big_ready s1 body rest -> i <= rcap s1 ->
+  let before := rcap s1 - (len (firstn (N.to_nat (rcap s1)) body) - i) in
+  let s2 := snd (bufio_discard 1 s1 before 0) in
+  (exists s3, client_discard pause s2 (len body - before) = (Some ETimeout, s3))
+  \/ (exists s3, client_discard pause s2 (len body - before) = (None, s3) /\ post s1 s3 rest).
+Proof.
+  intros R Hi. pose proof (big_ready_len _ _ _ R) as Hl. rewrite Hl.
+  destruct R as (W1 & P1 & Lb & Hf & Hb).
+  replace (rcap s1 - (rcap s1 - i)) with i by lia. cbv zeta.
+  destruct (bufio_discard_buffered 0 s1 i 0 W1 ltac:(lia)) as (s2 & E & Po & _).
+  rewrite E. cbn [snd]. destruct Po as (W2 & C2 & P2 & Wt2).
+  assert (Hi' : (N.to_nat i <= length body)%nat) by (unfold len in Lb; lia).
+  rewrite P1, skipn_app_le in P2 by exact Hi'.
+  destruct (client_discard_spec pause s2 (len body - i) W2) as [L|(s3 & E3 & Po3)].
+  - rewrite P2, len_app', len_skipn. lia.
+  - left. exact L.
+  - right. exists s3. rewrite P2 in *.
+    assert (Hn : N.to_nat (len body - i) = length (skipn (N.to_nat i) body)).
+    { rewrite skipn_length. unfold len. lia. }
+    rewrite Hn, skipn_app_exact in Po3.
+    split; [exact E3|]. eapply post_trans; [|exact Po3].
+    apply post_intro; try apply W2; try apply W1; auto; try lia.
+    pose proof (wf_cap _ W2). lia.
+Qed.
+
+(* a duplicate big message: the whole body is discarded *)
+Theorem big_dup_spec pause s1 body rest :
+  big_ready s1 body rest ->
+  (exists s2, client_discard pause s1 (len body) = (Some ETimeout, s2))
+  \/ (exists s2, client_discard pause s1 (len body) = (None, s2) /\ post s1 s2 rest).
+Proof.
+  intros (W1 & P1 & Lb & Hf & Hb).
+  destruct (client_discard_spec pause s1 (len body) W1) as [L|(s2 & E & Po)].
+  - rewrite P1, len_app'. lia.
+  - left. exact L.
+  - right. exists s2. split; [exact E|]. rewrite P1 in Po. unfold len in Po.
+    rewrite Nat2N.id, skipn_app_exact in Po. exact Po.
+Qed.
+
+(* ------------------------------------------------------------------ *)
+(* whole streams                                                       *)
+
+Lemma take_remlen_suffix r n r' : take_remlen r = Some (n, r') -> exists pre, r = pre ++ r'.
+Proof.
+  unfold take_remlen. destruct r as [|a r]; [discriminate|].
+  destruct (a <? 128); [intros E; injection E as _ <-; exists [a]; reflexivity|].
+  destruct r as [|b r]; [discriminate|].
+  destruct (b <? 128); [intros E; injection E as _ <-; exists [a; b]; reflexivity|].
+  destruct r as [|c r]; [discriminate|].
+  destruct (c <? 128); [intros E; injection E as _ <-; exists [a; b; c]; reflexivity|].
+  destruct r as [|d r]; [discriminate|].
+  destruct (d <? 128); [intros E; injection E as _ <-; exists [a; b; c; d]; reflexivity|discriminate].
+Qed.
+
+Lemma bytes_app_r (a b : list N) : bytes (a ++ b) -> bytes b.
+Proof. unfold bytes. intros H. apply Forall_app in H. apply H. Qed.
+
+Lemma frame_packet_bytes p head body rest :
+  frame_packet p = Some (head, body, rest) -> bytes p -> bytes rest.
+Proof.
+  intros F Hb. destruct (frame_packet_inv _ _ _ _ F) as (r & r' & -> & T & ->).
+  destruct (take_remlen_suffix _ _ _ T) as [pre ->].
+  apply bytes_tail in Hb. apply bytes_app_r in Hb. apply bytes_app_r in Hb. exact Hb.
+Qed.
+
+Lemma read_byte_empty s : wf s -> pending s = [] ->
+  read_byte s = (inr ENoTape, s) \/ exists s', read_byte s = (inr ETimeout, s').
+Proof.
+  intros W P. pose proof W as [We Wt Wc Wp]. unfold read_byte.
+  unfold pending in P. apply app_eq_nil in P. destruct P as [Pb Pd]. rewrite Pb, We.
+  pose proof (fill_spec s W) as H. rewrite Pb in H. specialize (H Wp).
+  destruct (fill s) as [s1|]; [|left; reflexivity].
+  destruct H as (Hc & Ha & Hg & Hw & Hpd & [(He & (y & ys & Hb) & Hl)|(He & Hb)]).
+  - exfalso. unfold pending in Hpd. rewrite Hb, Pb, Pd in Hpd. destruct (data (rtape s1)); discriminate.
+  - right. rewrite Hb, He. eexists. reflexivity.
+Qed.
+
+Definition run_obs (r : list sobs * stream_end * rst) : list sobs := fst (fst r).
+Definition run_end (r : list sobs * stream_end * rst) : stream_end := snd (fst r).
+Definition run_state (r : list sobs * stream_end * rst) : rst := snd r.
+
+Lemma run_cons o (r : list sobs * stream_end * rst) :
+  (let '(l, e, s) := r in (o :: l, e, s)) = (o :: run_obs r, run_end r, run_state r).
+Proof. destruct r as [[l e] s]. reflexivity. Qed.
+
+(* The observations of a run are those of the byte stream alone: all of them when the run
+   reaches the end of the script, a prefix when a deadline expiry ends it. *)
+Theorem read_stream_spec pause mode : forall l fuel s,
+  wf s -> bytes (pending s) -> framed l (pending s) ->
+  Forall (servable (rcap s) mode) l -> (length l < fuel)%nat ->
+  let r := read_stream fuel pause mode s in
+  (run_end r = EndTimeout /\ exists l1 l2, l = l1 ++ l2 /\ run_obs r = map (expect_obs (rcap s) mode) l1)
+  \/ (run_end r = EndScript /\ run_obs r = map (expect_obs (rcap s) mode) l
+      /\ pending (run_state r) = [] /\ wf (run_state r)).
+Proof.
+  induction l as [|[head body] l IH]; intros fuel s W Hb F Sv Hf;
+    (destruct fuel as [|f]; [cbn [length] in Hf; lia|]); cbv zeta; cbn [read_stream].
+  - cbn [framed] in F. rewrite peek_packet_unfold.
+    destruct (read_byte_empty s W F) as [E|(s' & E)]; rewrite E.
+    + right. cbn. auto.
+    + left. cbn. split; [reflexivity|]. exists [], []. auto.
+  - cbn [framed] in F. destruct F as (rest & F & Fl).
+    inversion Sv as [|? ? Sv1 Svl]; subst. destruct Sv1 as [Sn Sbig].
+    pose proof (frame_packet_bytes _ _ _ _ F Hb) as Hbr.
+    assert (TO : forall (x : list sobs * stream_end * rst), x = ([], EndTimeout, snd x) ->
+             (run_end x = EndTimeout /\ exists l1 l2, (head, body) :: l = l1 ++ l2 /\
+                run_obs x = map (expect_obs (rcap s) mode) l1)
+             \/ (run_end x = EndScript /\ run_obs x = map (expect_obs (rcap s) mode) ((head, body) :: l)
+                 /\ pending (run_state x) = [] /\ wf (run_state x))).
+    { intros x ->. left. split; [reflexivity|]. exists [], ((head, body) :: l). auto. }
+    (* continuation after the packet has been consumed in state s2 *)
+    assert (Next : forall s2 o, post s s2 rest -> o = expect_obs (rcap s) mode (head, body) ->
+              let x := (o :: run_obs (read_stream f pause mode s2),
+                        run_end (read_stream f pause mode s2),
+                        run_state (read_stream f pause mode s2)) in
+              (run_end x = EndTimeout /\ exists l1 l2, (head, body) :: l = l1 ++ l2 /\
+                 run_obs x = map (expect_obs (rcap s) mode) l1)
+              \/ (run_end x = EndScript /\ run_obs x = map (expect_obs (rcap s) mode) ((head, body) :: l)
+                  /\ pending (run_state x) = [] /\ wf (run_state x))).
+    { intros s2 o (W2 & C2 & P2 & _) ->. cbv zeta.
+      specialize (IH f s2 W2 ltac:(now rewrite P2) ltac:(now rewrite P2)
+                    ltac:(now rewrite C2) ltac:(cbn [length] in Hf; lia)).
+      cbv zeta in IH. rewrite C2 in IH.
+      destruct IH as [(He & l1 & l2 & -> & Ho)|(He & Ho & Hp & Hw)].
+      - left. split; [exact He|]. exists ((head, body) :: l1), l2. split; [reflexivity|].
+        unfold run_obs in *. cbn [fst map]. now rewrite Ho.
+      - right. split; [exact He|]. unfold run_obs, run_state in *. cbn [fst snd map].
+        rewrite Ho. auto. }
+    destruct (peek_packet_spec pause s head body rest W Hb F Sn)
+      as [(s1 & E1)|(s1 & E1 & Po1 & Hf1 & Hl1)]; rewrite E1.
+    { apply TO. reflexivity. }
+    pose proof Po1 as (W1 & C1 & P1 & Wt1).
+    destruct (is_big (rcap s) head (len body)) eqn:Big.
+    + (* big message *)
+      assert (Lb : rcap s < len body).
+      { unfold is_big in Big. apply andb_prop in Big. destruct Big as [_ Big]. now apply N.ltb_lt in Big. }
+      assert (Hpl : peek_len (rcap s) head (len body) = rcap s) by (unfold peek_len; now rewrite Big).
+      rewrite Hpl in *.
+      assert (R1 : big_ready s1 body rest).
+      { unfold big_ready. rewrite C1. splits; auto. }
+      destruct mode.
+      * destruct (Sbig eq_refl ltac:(discriminate)) as (t & id & i & Hps & Hi).
+        rewrite Hps.
+        pose proof (big_read_spec pause s1 body rest i R1 ltac:(lia)) as H.
+        cbv zeta in H. rewrite C1 in *.
+        destruct H as [(s3 & E3)|(s3 & E3 & Po3)]; rewrite E3.
+        { apply TO. reflexivity. }
+        rewrite run_cons. apply Next.
+        -- eapply post_trans; [exact Po1|exact Po3].
+        -- unfold expect_obs. rewrite Big. f_equal.
+           rewrite firstn_firstn. replace (Init.Nat.min (N.to_nat i) (N.to_nat (rcap s))) with (N.to_nat i) by lia.
+           apply firstn_skipn.
+      * destruct (Sbig eq_refl ltac:(discriminate)) as (t & id & i & Hps & Hi).
+        rewrite Hps.
+        pose proof (big_skip_spec pause s1 body rest i R1 ltac:(lia)) as H.
+        cbv zeta in H. rewrite C1 in *.
+        destruct H as [(s3 & E3)|(s3 & E3 & Po3)]; rewrite E3.
+        { apply TO. reflexivity. }
+        rewrite run_cons. apply Next.
+        -- eapply post_trans; [exact Po1|exact Po3].
+        -- unfold expect_obs. rewrite Big, Hps. f_equal.
+           rewrite firstn_firstn. replace (Init.Nat.min (N.to_nat i) (N.to_nat (rcap s))) with (N.to_nat i) by lia.
+           reflexivity.
+      * destruct (big_dup_spec pause s1 body rest R1) as [(s2 & E2)|(s2 & E2 & Po2)]; rewrite E2.
+        { apply TO. reflexivity. }
+        rewrite run_cons. apply Next.
+        -- eapply post_trans; [exact Po1|exact Po2].
+        -- unfold expect_obs. now rewrite Big.
+    + (* the whole body is buffered *)
+      assert (Hpl : peek_len (rcap s) head (len body) = len body) by (unfold peek_len; now rewrite Big).
+      rewrite Hpl in *.
+      destruct (bufio_discard_buffered 0 s1 (len body) 0 W1 Hl1) as (s2 & E2 & Po2 & _).
+      rewrite E2. cbn [snd]. rewrite run_cons. apply Next.
+      * eapply post_trans; [exact Po1|]. rewrite P1 in Po2. unfold len in Po2.
+        rewrite Nat2N.id, skipn_app_exact in Po2. exact Po2.
+      * unfold expect_obs. now rewrite Big.
+Qed.
+
+(* ------------------------------------------------------------------ *)
+(* fragmentation invariance                                            *)
+
+(* Two readers with the same buffer size and the same pending bytes -- i.e. the same
+   stream cut into conn.Read results in two different ways, with deadline expiries
+   anywhere -- observe prefixes of one and the same list; a run that does not end in a
+   deadline expiry observes all of it and leaves nothing pending. *)
+Theorem fragmentation_invariant pause mode l fuel s1 s2 :
+  wf s1 -> wf s2 -> rcap s1 = rcap s2 -> pending s1 = pending s2 ->
+  bytes (pending s1) -> framed l (pending s1) ->
+  Forall (servable (rcap s1) mode) l -> (length l < fuel)%nat ->
+  let r1 := read_stream fuel pause mode s1 in
+  let r2 := read_stream fuel pause mode s2 in
+  let full := map (expect_obs (rcap s1) mode) l in
+  (exists x, full = run_obs r1 ++ x) /\ (exists x, full = run_obs r2 ++ x) /\
+  (run_end r1 <> EndTimeout -> run_obs r1 = full /\ run_end r1 = EndScript /\ pending (run_state r1) = []) /\
+  (run_end r2 <> EndTimeout -> run_obs r2 = full /\ run_end r2 = EndScript /\ pending (run_state r2) = []) /\
+  (run_end r1 <> EndTimeout -> run_end r2 <> EndTimeout ->
+   run_obs r1 = run_obs r2 /\ run_end r1 = run_end r2).
+Proof.
+  intros W1 W2 C P Hb F Sv Hf. cbv zeta.
+  pose proof (read_stream_spec pause mode l fuel s1 W1 Hb F Sv Hf) as H1.
+  pose proof (read_stream_spec pause mode l fuel s2 W2 ltac:(now rewrite <- P) ltac:(now rewrite <- P)
+                ltac:(now rewrite <- C) Hf) as H2.
+  cbv zeta in H1, H2. rewrite <- C in H2.
+  set (r1 := read_stream fuel pause mode s1) in *. set (r2 := read_stream fuel pause mode s2) in *.
+  assert (A : forall r, (run_end r = EndTimeout /\ exists l1 l2, l = l1 ++ l2 /\
+                  run_obs r = map (expect_obs (rcap s1) mode) l1)
+                \/ (run_end r = EndScript /\ run_obs r = map (expect_obs (rcap s1) mode) l
+                    /\ pending (run_state r) = [] /\ wf (run_state r)) ->
+            (exists x, map (expect_obs (rcap s1) mode) l = run_obs r ++ x) /\
+            (run_end r <> EndTimeout -> run_obs r = map (expect_obs (rcap s1) mode) l
+               /\ run_end r = EndScript /\ pending (run_state r) = [])).
+  { intros r [(He & l1 & l2 & -> & Ho)|(He & Ho & Hp & _)].
+    - split; [exists (map (expect_obs (rcap s1) mode) l2); now rewrite Ho, map_app|].
+      intros N. contradiction.
+    - split; [exists []; now rewrite Ho, app_nil_r|]. intros _. auto. }
+  destruct (A r1 H1) as [X1 Y1]. destruct (A r2 H2) as [X2 Y2].
+  splits; auto.
+  intros N1 N2. destruct (Y1 N1) as (-> & -> & _). destruct (Y2 N2) as (-> & -> & _). auto.
+Qed.
+
+(* the reader freshly attached to a connection (after the CONNACK has been taken) *)
+Definition reader_on (cap : N) (buf : list N) (tape : list rans) : rst :=
+  {| rbuf := buf; rerr := None; rcap := cap; rarmed := false; rtape := tape; rlog := [] |}.
+
+Lemma reader_on_wf cap buf tape : 0 < cap -> len buf <= cap -> good_tape tape ->
+  wf (reader_on cap buf tape).
+Proof. intros. split; cbn [reader_on rerr rtape rbuf rcap]; auto. Qed.
+
+(* the same, stated on tapes: only the data of the tape matters *)
+Corollary fragmentation_invariant_tapes pause mode cap buf t1 t2 l fuel :
+  16 <= cap -> len buf <= cap -> good_tape t1 -> good_tape t2 -> data t1 = data t2 ->
+  bytes (buf ++ data t1) -> framed l (buf ++ data t1) ->
+  Forall (servable cap mode) l -> (length l < fuel)%nat ->
+  let r1 := read_stream fuel pause mode (reader_on cap buf t1) in
+  let r2 := read_stream fuel pause mode (reader_on cap buf t2) in
+  let full := map (expect_obs cap mode) l in
+  (exists x, full = run_obs r1 ++ x) /\ (exists x, full = run_obs r2 ++ x) /\
+  (run_end r1 <> EndTimeout -> run_obs r1 = full /\ run_end r1 = EndScript /\ pending (run_state r1) = []) /\
+  (run_end r2 <> EndTimeout -> run_obs r2 = full /\ run_end r2 = EndScript /\ pending (run_state r2) = []) /\
+  (run_end r1 <> EndTimeout -> run_end r2 <> EndTimeout ->
+   run_obs r1 = run_obs r2 /\ run_end r1 = run_end r2).
+Proof.
+  intros Hc Hl G1 G2 D Hb F Sv Hf.
+  apply (fragmentation_invariant pause mode l fuel (reader_on cap buf t1) (reader_on cap buf t2));
+    try (apply reader_on_wf; auto; lia); auto.
+  unfold pending. cbn. now rewrite D.
+Qed.
+
+(* ------------------------------------------------------------------ *)
+(* remaining length at packet level                                    *)
+
+Theorem peek_packet_fifth_length_byte pause s h a b c d r : wf s ->
+  pending s = h :: a :: b :: c :: d :: r -> 128 <= a -> 128 <= b -> 128 <= c -> 128 <= d ->
+  (exists s', peek_packet pause s = (PkErr ETimeout false, s'))
+  \/ (exists s', peek_packet pause s = (PkErr EHard true, s')).
+Proof.
+  intros W P Ha Hb Hc Hd. rewrite peek_packet_unfold.
+  destruct (read_byte_spec s h _ W P) as [(s1 & E1 & Po1)|(s1 & E1)]; rewrite E1;
+    [|left; exists s1; reflexivity].
+  destruct Po1 as (W1 & C1 & P1 & Wt1).
+  destruct (remlen_fifth pause s1 a b c d r W1 P1 Ha Hb Hc Hd) as [(s2 & E2)|(s2 & E2)]; rewrite E2;
+    [left|right]; unfold fin_arm; destruct pause; eexists; reflexivity.
 Qed.
